@@ -35,11 +35,11 @@ LEMMAS = [
 
 # bounded Kani parts: name -> (crate dir, harnesses, properties, bound text)
 KANI = {
-    "U26": {"dir": "kani/u26", "props": ["C15"],
+    "kani-u26": {"dir": "kani/u26", "props": ["C15"],
             "bound": "sequential (Kani has no threads); num_txs <= 4; unwind 6"},
-    "U22b": {"dir": "kani/u22b", "props": ["C13"],
+    "kani-u22b": {"dir": "kani/u22b", "props": ["C13"],
              "bound": "account schedules of <= 3 transactions (thorough: 4), fully symbolic 256-bit costs; unwind 34 (U256 == is a 32-byte memcmp)"},
-    "U23": {"dir": "kani/u23", "props": ["C13"],
+    "kani-u23": {"dir": "kani/u23", "props": ["C13"],
             "bound": "journals of 2 balance transfers over 3 accounts (symbolic endpoints, 16-bit values, symbolic delegation flags, CALL/CREATE root transfer); light stand-ins for Address/U256/HashMap; forward-simulation oracle"},
 }
 
